@@ -977,6 +977,9 @@ func fam(name string, conf map[string]interface{}, unsafe bool) drv.Scenario {
 // gfam: gated workload family (word x gate menu), default schedule.
 func gfam(name string, conf map[string]interface{}, unsafe bool, quick bool) drv.Scenario {
 	words := lww.GatedWords(mc.Tier())
+	if mc.Tier() != "thorough" {
+		words = lww.Words("bdz", 2) // every execution recovers dozens of crash images: keep quick small
+	}
 	k := cfg{name: name, conf: conf, unsafe: unsafe, window: "workload", family: words}
 	gdoc := "gated workload family: every word over the batch-shape alphabet x every member of the gate menu (none; merger parked before introducing a merge / before planning, persister parked after a round / before its purge; 1st or 2nd occurrence; reopened after 1 or 2 further batches) — both environment choices of the explorer; each batch in its own client thread; crash image at every effect boundary"
 	sc := drv.Scenario{Name: name, Doc: gdoc, Body: bodyGatedFamily(k), After: after, Thorough: []drv.Phase{{Bound: 0}}, Class: classOf(k)}
